@@ -471,7 +471,291 @@ Section Replace.
         + apply srcw_rt; exact Hsq.
         + eapply nsd_src; eauto.
         + unfold live in Hlive. apply negb_true_iff in Hlive. exact Hlive.
-        + rewrite (reenter_live sq lim stop fr Hsq Hlive Hex). reflexivity.
+        + unfold fr', fr''. rewrite (reenter_live sq lim stop fr Hsq Hlive Hex). reflexivity.
     Qed.
   End Continue.
 End Replace.
+
+(* ------------------------------------------------------------------ the recursion wrapper of the current tree *)
+Lemma wrap_cur sq lim stop nx b fr :
+  srcw true sq -> live sq = true -> noempty sq = true -> nsd_rec sq = true ->
+  noempty nx = true -> rt true nx -> nsdr nx ->
+  (lim = None \/ (uniform sq = true /\ exists r, phase r nx)) ->
+  exists r', rec_wrap current sq lim stop nx = XOk r' /\
+    (forall w, r' = Some w -> rt b w /\ has_edge w = false /\ noempty w = true /\ nsdr w) /\
+    map norm (orep r' fr) = map norm (lrep nx (mkframe sq lim stop :: fr)).
+Proof.
+  intros Hsq Hlive Hnes Hnsd Hne Hrt Hns Hph. unfold rec_wrap. cbn [current q_shared_depth q_exhausted_unwrap].
+  destruct (has_edge nx) eqn:He; cbn [negb].
+  - assert (Hph0 : lim = None \/ phase 0 nx).
+    { destruct Hph as [H|(_ & r & Hr)]; [left; exact H|right].
+      pose proof (has_edge_depth0 nx He) as H0. unfold phase in Hr. rewrite Forall_forall in Hr.
+      pose proof (Hr _ H0) as E0. subst r. apply Forall_forall. exact Hr. }
+    destruct (exhausted lim) eqn:Hex.
+    + pose proof (r1_all sq lim stop fr Hex nx Hne Hrt Hns) as H1.
+      destruct (replace_edge nx None) as [c|].
+      * destruct H1 as (a & b0 & c0 & d & e & f).
+        exists (Some (SRec sq c lim stop)). split; [reflexivity|]. split.
+        -- intros w E; inversion E; subst. repeat apply conj.
+           ++ constructor; assumption.
+           ++ reflexivity.
+           ++ cbn [noempty]. rewrite Hnes, d. reflexivity.
+           ++ constructor; auto. destruct Hph as [H|(Hu & r & Hr)]; [subst lim; discriminate|].
+              right. split; [exact Hu|]. exists r. apply f. exact Hr.
+        -- cbn [orep rep]. rewrite or_nop_id by (apply rep_noedge_nonempty; exact b0). rewrite a. reflexivity.
+      * exists None. split; [reflexivity|]. split; [discriminate|]. cbn [orep]. rewrite H1. reflexivity.
+    + destruct (r2_all sq lim stop fr Hsq Hlive Hnes Hnsd Hex nx Hne Hrt Hns Hph0) as (c & Ec & a & b0 & c0 & d & e & f).
+      rewrite Ec. exists (Some (SRec sq c (lim_pred lim) stop)). split; [reflexivity|]. split.
+      * intros w E; inversion E; subst. repeat apply conj.
+        -- constructor; assumption.
+        -- reflexivity.
+        -- cbn [noempty]. rewrite Hnes, b0. reflexivity.
+        -- constructor; auto. destruct Hph as [H|(Hu & r & Hr)]; [subst lim; left; reflexivity|].
+           destruct lim as [z|]; [|left; reflexivity]. right. split; [exact Hu|].
+           destruct (uniform_phase sq Hu) as [k Hk]. exists k. apply e; [exact Hk|].
+           destruct Hph0 as [H|H]; [discriminate|exact H].
+      * cbn [orep rep]. rewrite or_nop_id; [exact f|]. intros E. apply rep_empty_iff in E. congruence.
+  - exists (Some (SRec sq nx lim stop)). split; [reflexivity|]. split.
+    + intros w E; inversion E; subst. repeat apply conj.
+      * constructor; assumption.
+      * reflexivity.
+      * cbn [noempty]. rewrite Hnes, Hne. reflexivity.
+      * constructor; auto.
+    + cbn [orep rep]. rewrite or_nop_id by (apply rep_noedge_nonempty; exact He).
+      rewrite (lrep_noedge nx _ He). reflexivity.
+Qed.
+
+(* ------------------------------------------------------------------ phases along Explore *)
+Lemma explore_rec_shape sq cur lim stop n p w :
+  explore current (SRec sq cur lim stop) n p = XOk (Some w) -> exists c l', w = SRec sq c l' stop.
+Proof.
+  cbn [explore].
+  assert (Hw : forall nx, rec_wrap current sq lim stop nx = XOk (Some w) -> exists c l', w = SRec sq c l' stop).
+  { intros nx. unfold rec_wrap. cbn [current q_shared_depth q_exhausted_unwrap].
+    destruct (has_edge nx); cbn [negb]; [|intros E; inversion E; eauto].
+    destruct (exhausted lim); [destruct (replace_edge nx None)|destruct (replace_edge nx (Some sq))];
+      intros E; inversion E; eauto. }
+  assert (Hc : (if is_edge cur then XOk None
+                else match explore current cur n p with
+                     | XOk (Some nx) => rec_wrap current sq lim stop nx
+                     | XOk None => XOk None | XErr => XOk None | XPanic => XPanic end) = XOk (Some w) ->
+               exists c l', w = SRec sq c l' stop).
+  { destruct (is_edge cur); [discriminate|]. destruct (explore current cur n p) as [[nx|]| |]; try discriminate. apply Hw. }
+  destruct stop as [c|]; [|exact Hc].
+  destruct (lookup_seg n p); [|discriminate]. destruct (cond_match c d); [discriminate|exact Hc].
+Qed.
+
+Lemma fields_phase r fs k nx :
+  Forall (fun d => d = r) (ed_fields 1 fs) -> assoc k fs = Some nx -> Forall (fun d => d = r) (edge_depths 1 nx).
+Proof.
+  induction fs as [|[k' x] t IH]; cbn; [discriminate|]. intros H. apply Forall_app in H. destruct H as [H1 H2].
+  destruct (bytes_eqb k k'); [intros E; inversion E; subst; exact H1|apply IH; exact H2].
+Qed.
+
+Lemma explore_phase s : forall r n p nx,
+  phase r s -> explore current s n p = XOk (Some nx) -> phase (pred r) nx.
+Proof.
+  induction s as [sl|nx0 IH|fs IH|i nx0 IH|a b' nx0 IH|ms IH|sq cur lim stop IH1 IH2|] using sel_ind2;
+    intros r n p nx Hp E; try discriminate.
+  - cbn in E. inversion E; subst. apply phase_cont. exact Hp.
+  - cbn in E. inversion E as [E']. unfold phase in Hp. rewrite ed_fields_eq in Hp. apply phase_cont.
+    eapply fields_phase; eauto.
+  - cbn in E. destruct n; try discriminate. destruct (seg_index p); [|discriminate].
+    destruct (seg_index (seg_of_int i)); [|discriminate]. destruct (_ =? _); inversion E; subst.
+    apply phase_cont. exact Hp.
+  - cbn in E. destruct n; try discriminate. destruct (seg_index p); [|discriminate].
+    destruct (_ || _)%bool; inversion E; subst. apply phase_cont. exact Hp.
+  - rewrite explore_union in E. apply phase_union in Hp.
+    assert (Hall : forall rs, explore_all current ms n p = XOk rs -> Forall (phase (pred r)) rs).
+    { clear E. induction ms as [|m t IHt]; intros rs Ers; [inversion Ers; constructor|].
+      inversion IH as [|? ? Hx Ht]; subst. inversion Hp as [|? ? Px Pt]; subst.
+      cbn in Ers. destruct (explore current m n p) as [ro| |] eqn:Em; try discriminate.
+      destruct (explore_all current t n p) as [rs'| |] eqn:Et; try discriminate. inversion Ers; subst.
+      specialize (IHt Ht Pt rs' eq_refl). destruct ro as [x|]; [|exact IHt]. constructor; [|exact IHt].
+      eapply Hx; eauto. }
+    destruct (explore_all current ms n p) as [rs| |]; try discriminate. inversion E as [E'].
+    eapply phase_union_of; [apply (Hall rs eq_refl)|exact E'].
+  - destruct (explore_rec_shape _ _ _ _ _ _ _ E) as (c & l' & ->). apply phase_rec.
+Qed.
+
+(* ------------------------------------------------------------------ Explore of the current tree = sstep, up to norm *)
+Definition explore_ok_cur (s : sel) : Prop :=
+  forall b fr n ps v,
+    rt b s -> nsdr s -> noempty s = true -> lookup_seg n ps = Some v -> stopped fr v = false ->
+    exists r, explore current s n ps = XOk r /\
+              (forall s', r = Some s' -> rt b s' /\ nsdr s' /\ noempty s' = true) /\
+              map norm (lrep_opt r fr) = map norm (flat_map (sstep n ps v) (rep s fr)).
+
+Lemma explore_cur : forall s, explore_ok_cur s.
+Proof.
+  induction s as [sl|nx IH|fs IH|i nx IH|a b' nx IH|ms IH|sq cur lim stop IH1 IH2|] using sel_ind2;
+    intros b fr n ps v Hrt Hns Hne Hl Hs.
+  - destruct (explore_sstep (SMatch sl) b fr n ps v Hrt Hl Hs) as (r & Er & Rr & Lr).
+    exists r. split; [exact Er|]. split; [|rewrite Lr; reflexivity]. cbn in Er. inversion Er; subst. discriminate.
+  - destruct (explore_sstep (SAll nx) b fr n ps v Hrt Hl Hs) as (r & Er & Rr & Lr).
+    exists r. split; [exact Er|]. split; [|rewrite Lr; reflexivity]. cbn in Er. inversion Er; subst.
+    intros s' E; inversion E; subst. inversion Hrt; subst. inversion Hns; subst. repeat apply conj.
+    + apply srcw_rt; assumption.
+    + eapply nsd_src; eauto.
+    + exact Hne.
+  - destruct (explore_sstep (SFields fs) b fr n ps v Hrt Hl Hs) as (r & Er & Rr & Lr).
+    exists r. split; [exact Er|]. split; [|rewrite Lr; reflexivity]. cbn in Er. inversion Er; subst.
+    intros s' E. inversion Hrt; subst. inversion Hns; subst. rewrite noempty_fields_eq in Hne. repeat apply conj.
+    + apply srcw_rt. eapply (assoc_Forall (srcw b)); eauto.
+    + eapply nsd_src; [eapply (assoc_Forall (srcw b)); eauto|].
+      eapply (assoc_fields_prop nsd_rec nsd_fields); eauto.
+    + eapply (assoc_fields_prop noempty noempty_fields); eauto.
+  - destruct (explore_sstep (SIndex i nx) b fr n ps v Hrt Hl Hs) as (r & Er & Rr & Lr).
+    exists r. split; [exact Er|]. split; [|rewrite Lr; reflexivity].
+    intros s' E. subst r. inversion Hrt; subst. inversion Hns; subst.
+    assert (s' = nx).
+    { cbn in Er. destruct n; try discriminate. destruct (seg_index ps); [|discriminate].
+      destruct (seg_index (seg_of_int i)); [|discriminate]. destruct (_ =? _); inversion Er; reflexivity. }
+    subst s'. repeat apply conj; [apply srcw_rt; assumption|eapply nsd_src; eauto|exact Hne].
+  - destruct (explore_sstep (SRange a b' nx) b fr n ps v Hrt Hl Hs) as (r & Er & Rr & Lr).
+    exists r. split; [exact Er|]. split; [|rewrite Lr; reflexivity].
+    intros s' E. subst r. inversion Hrt; subst. inversion Hns; subst.
+    assert (s' = nx).
+    { cbn in Er. destruct n; try discriminate. destruct (seg_index ps); [|discriminate].
+      destruct (_ || _)%bool; inversion Er; reflexivity. }
+    subst s'. repeat apply conj; [apply srcw_rt; assumption|eapply nsd_src; eauto|exact Hne].
+  - (* union *)
+    destruct ms as [|m ms]; [discriminate|].
+    rewrite explore_union, rep_union. rewrite noempty_union in Hne.
+    inversion Hrt as [| | | | |? ? Hms| |]; subst. inversion Hns as [| | | | |? Nms| |]; subst.
+    assert (Hall : exists rs, explore_all current (m :: ms) n ps = XOk rs /\
+                              Forall (rt b) rs /\ Forall nsdr rs /\ noempty_list rs = true /\
+                              map norm (lrep_list rs fr) = map norm (flat_map (sstep n ps v) (rep_list (m :: ms) fr))).
+    { revert IH Hms Nms Hne. generalize (m :: ms). intros l IH Hlr Hln Hle.
+      induction l as [|x t IHt]; [exists []; repeat apply conj; try constructor; reflexivity|].
+      inversion IH as [|? ? Hx Ht]; subst. inversion Hlr as [|? ? Rx Rt]; subst. inversion Hln as [|? ? Nx Nt]; subst.
+      cbn in Hle. apply andb_true_iff in Hle. destruct Hle as [E1 E2].
+      destruct (Hx b fr n ps v Rx Nx E1 Hl Hs) as (r & Er & Rr & Lr).
+      destruct (IHt Ht Rt Nt E2) as (rs & Ers & Rrs & Nrs & Ers2 & Lrs).
+      cbn [explore_all rep_list]. rewrite Er, Ers, flat_map_app, map_app, <- Lr, <- Lrs.
+      destruct r as [x'|].
+      - destruct (Rr x' eq_refl) as (R1 & R2 & R3). exists (x' :: rs). cbn [lrep_list lrep_opt noempty_list].
+        rewrite map_app, R3, Ers2. repeat apply conj; auto.
+      - exists rs. repeat apply conj; auto. }
+    destruct Hall as (rs & Ers & Rrs & Nrs & Ners & Lrs). rewrite Ers. exists (union_of rs).
+    split; [reflexivity|split].
+    + intros s' E. destruct (union_of_some rs s' fr E) as (_ & _ & _ & _ & d & e & _).
+      repeat apply conj; auto.
+      destruct rs as [|x [|y t]]; cbn in E; inversion E; subst; [inversion Rrs; assumption|constructor; assumption].
+    + rewrite lrep_union_of. exact Lrs.
+  - (* recursion *)
+    inversion Hrt as [| | | | | |? ? ? ? ? Hsq Hcur|]; subst.
+    inversion Hns as [| | | | | |? ? ? ? Hnsq Hlive Hncur Hph|]; subst.
+    cbn [noempty] in Hne. apply andb_true_iff in Hne. destruct Hne as [Hnes Hnec].
+    cbn [explore rep]. fold (mkframe sq lim stop). rewrite flat_map_or_nop, Hl.
+    set (fr' := mkframe sq lim stop :: fr).
+    assert (Hst : stopped fr' v = match stop with Some c => cond_match c v | None => false end).
+    { unfold fr'. cbn [stopped existsb mkframe fr_stop]. fold (stopped fr v). rewrite Hs.
+      destruct stop; [apply orb_false_r|reflexivity]. }
+    match goal with |- context [if is_edge cur then ?A else ?B] => set (cont := if is_edge cur then A else B) end.
+    assert (Hmain : stopped fr' v = false ->
+                    exists r, cont = XOk r /\ (forall s', r = Some s' -> rt b s' /\ nsdr s' /\ noempty s' = true) /\
+                              map norm (lrep_opt r fr) = map norm (flat_map (sstep n ps v) (rep cur fr'))).
+    { intros Est. unfold cont. destruct (is_edge cur) eqn:Ee.
+      - destruct cur; try discriminate. exists None. fin. reflexivity.
+      - destruct (IH2 true fr' n ps v Hcur Hncur Hnec Hl Est) as (r & Er & Rr & Lr). rewrite Er.
+        destruct r as [nx|].
+        + destruct (Rr nx eq_refl) as (R1 & R2 & R3).
+          assert (Hphn : lim = None \/ (uniform sq = true /\ exists r, phase r nx)).
+          { destruct Hph as [H|(Hu & r & Hr)]; [left; exact H|right; split; [exact Hu|]].
+            exists (pred r). eapply explore_phase; eauto. }
+          destruct (wrap_cur sq lim stop nx b fr Hsq Hlive Hnes Hnsq R3 R1 R2 Hphn) as (r' & Er' & Rr' & Lr').
+          rewrite Er'. exists r'. split; [reflexivity|split].
+          * intros s' E. destruct (Rr' s' E) as (A & _ & C & D). auto.
+          * rewrite <- Lr. cbn [lrep_opt]. fold fr' in Lr'. rewrite <- Lr'.
+            destruct r' as [w|]; cbn [orep lrep_opt]; [|reflexivity].
+            rewrite lrep_noedge; [reflexivity|]. apply (Rr' w eq_refl).
+        + exists None. fin. exact Lr. }
+    destruct stop as [c|].
+    + cbn iota beta. destruct (cond_match c v) eqn:Ec.
+      * exists None. fin. rewrite (sstep_dead n ps v fr' _ Hst (rep_frames cur fr')). reflexivity.
+      * apply Hmain. exact Hst.
+    + apply Hmain. exact Hst.
+  - (* edge *)
+    exists None. cbn. fin. reflexivity.
+Qed.
+
+(* ------------------------------------------------------------------ the walk of the current tree = denote *)
+Section WC.
+  Variable g : list (bytes * dm).
+  Hypothesis Hg : keys_graph g = true.
+  Hypothesis Hsg : small_graph g = true.
+
+  Theorem walk_denote_cur f : forall ls P n s,
+    rt false s -> nsdr s -> noempty s = true -> keys_ok n = true -> small_dm n = true ->
+    walk current g f ls P n s = denote g f ls P n (rep s []).
+  Proof.
+    induction f as [|f IH]; intros ls P n s Hrt Hns Hne Hk Hsm; [reflexivity|].
+    rewrite walk_S, denote_S. unfold visit_event. rewrite (match_rep s false [] n Hrt (small_dm_top n Hsm)).
+    destruct (is_container n); [|reflexivity].
+    replace (children current n s) with (children repaired n s) by reflexivity.
+    rewrite <- (children_rep n s []).
+    rewrite (seqk_ext_in (explore_step current g (walk current g f) ls P n s)
+                         (denote_step g (denote g f) ls P n (rep s []))); [reflexivity|].
+    intros [ps v] Hin.
+    pose proof (children_lookup repaired n s ps v Hk Hin) as Hl.
+    pose proof (lookup_keys_ok n ps v Hk Hl) as Hkv.
+    pose proof (lookup_small n ps v Hsm Hl) as Hsv.
+    destruct (explore_cur s false [] n ps v Hrt Hns Hne Hl eq_refl) as (r & Er & Rr & Lr).
+    unfold explore_step, denote_step; cbn [fst snd]. rewrite Er.
+    destruct r as [s'|].
+    - destruct (Rr s' eq_refl) as (R1 & R2 & R3). cbn [lrep_opt] in Lr.
+      rewrite (lrep_noedge s' [] (rt_closed s' R1)) in Lr.
+      pose proof (rep_closed_nonempty s' [] R1) as Hne'.
+      destruct (flat_map (sstep n ps v) (rep s [])) as [|a0 A'] eqn:EA.
+      { destruct (rep s' []); [congruence|discriminate]. }
+      destruct v; try (rewrite (IH _ _ _ s' R1 R2 R3) by assumption; apply denote_norm; exact Lr).
+      destruct (assoc c g) as [b|] eqn:Eb; [|reflexivity].
+      rewrite (IH (c :: ls) (P ++ [ps]) b s' R1 R2 R3 (keys_block g c b Hg Eb) (small_block g c b Hsg Eb)).
+      rewrite (denote_norm g f (c :: ls) (P ++ [ps]) b _ _ Lr). reflexivity.
+    - cbn [lrep_opt map] in Lr. destruct (flat_map (sstep n ps v) (rep s [])); [reflexivity|discriminate].
+  Qed.
+End WC.
+
+Theorem walk_denote_current g f root s :
+  keys_graph g = true -> small_graph g = true -> keys_ok root = true -> small_dm root = true ->
+  srcw false s -> no_shared_depth s = true ->
+  walk_adv current g f root s = denote_sel g f root s.
+Proof.
+  intros Hg Hsg Hk Hsm Hs Hn. unfold no_shared_depth in Hn. apply andb_true_iff in Hn. destruct Hn as [Hne Hnsd].
+  unfold walk_adv, denote_sel.
+  rewrite (walk_denote_cur g Hg Hsg f [] [] root s (srcw_rt s false Hs) (nsd_src s false Hs Hnsd) Hne Hk Hsm).
+  rewrite (rep_src s false [] Hs), (enter_closed s [] Hs). reflexivity.
+Qed.
+
+(* ------------------------------------------------------------------ examples and what lies outside the condition *)
+Require Import IP.Proofs.TravC07Refuted.
+
+(* the realistic selector: recursive(depth 5, union(match, all(edge))) *)
+Example no_shared_depth_realistic :
+  exists s, compile (d_rec_depth 5 (d_union [d_match; d_all d_edge])) = COk s /\ no_shared_depth s = true.
+Proof. eexists; split; vm_compute; reflexivity. Qed.
+(* depth limit with mid-sequence matchers next to the edge, a nested recursion, fields: still inside *)
+Example no_shared_depth_more :
+  exists s, compile (d_rec_depth 3 (d_union [d_all d_match; d_all d_edge;
+                                             d_fields [([97%N], d_rec_none (d_all d_edge))]])) = COk s /\
+            no_shared_depth s = true.
+Proof. eexists; split; vm_compute; reflexivity. Qed.
+
+(* the known witness of the shared counter is outside, and there the current tree does differ from the specification *)
+Lemma shared_depth_outside :
+  exists s, compile w4_sel = COk s /\ no_shared_depth s = false /\
+            walk_adv current [] 20 w4_root s <> denote_sel [] 20 w4_root s.
+Proof. eexists; split; [vm_compute; reflexivity|split; [vm_compute; reflexivity|vm_compute; discriminate]]. Qed.
+
+(* found while proving: replaceRecursiveEdge drops an EMPTY union that sits next to an edge, so at exhaustion the
+   node is not visited although the empty union (which visits its node and explores nothing, as all(union()) does)
+   is still there: R(depth 1, all(union(edge, union()))) over [[1]] does not visit the element *)
+Definition w5_sel : dm := d_rec_depth 1 (d_all (d_union [d_edge; d_union []])).
+Definition w5_root : dm := DList [DList [DInt 1]].
+Lemma empty_union_dropped :
+  exists s, compile w5_sel = COk s /\ noempty s = false /\ nsd_rec s = true /\
+            length (fst (walk_adv current [] 20 w5_root s)) = 1%nat /\
+            length (fst (denote_sel [] 20 w5_root s)) = 2%nat /\
+            walk_adv repaired [] 20 w5_root s = denote_sel [] 20 w5_root s.
+Proof. eexists; split; [vm_compute; reflexivity|repeat split; vm_compute; reflexivity]. Qed.
